@@ -439,7 +439,7 @@ from pyvc.bounded import Stage
 import re as _re
 
 _ERRS = ['#NULL!', '#DIV/0!', '#VALUE!', '#REF!', '#NAME?', '#NUM!', '#N/A']
-_POOL = [0, 1, -1, 0.0, 1.0, -1.0, 0.5, 1.15, -2.5, 1e200, -1e200, 1e-200, 3, 'TXT:1', 'TXT: 1 ', 'TXT:-2.5', 'TXT:1e3', 'TXT:.5', 'TXT:5.', 'TXT:+2E+1', 'TXT:a', 'TXT:A',
+_POOL = [0, 1, -1, 0.0, -0.0, 1.0, -1.0, 0.5, 1.15, -2.5, 1e200, -1e200, 1e-200, 3, 'TXT:1', 'TXT: 1 ', 'TXT:-2.5', 'TXT:1e3', 'TXT:.5', 'TXT:5.', 'TXT:+2E+1', 'TXT:a', 'TXT:A',
          'TXT:abc', 'TXT:1a', 'TXT:', True, False, 'BLANK'] + ['ERR:' + e for e in _ERRS]
 _BIN = ['+', '-', '*', '/', '^', '&', '=', '<>', '<', '>', '<=', '>=']
 
